@@ -52,7 +52,8 @@ def _calls(lift):
     b = [[lift(8.0)], [lift(-11.0)], [lift(-3.0)]]
     out['lu_solve'] = [list(r) for r in L.lu_solve(A, b)]
     out['det'] = L.matrix_determinant(A)
-    out['binom'] = [L.binomial_coefficient(13, 8), L.binomial_coefficient(5, 2)]
+    # the whole table used by degree elevation / derivatives up to degree 16: integer-valued float code vs exact integers
+    out['binom'] = [L.binomial_coefficient(k, i) for k in range(0, 17) for i in range(0, k + 1)]
     out['linspace'] = list(L.linspace(lift(0.0), lift(1.0), 7))
     return out
 
